@@ -459,7 +459,10 @@ def fast_pareto_mask(df_values, goals, distinct=True):
     all_simple = len(effective_extra) == 0
     all_min = all_simple and all(sign == 1.0 for _, sign in effective_cols)
     use_f32 = all_min and data.dtype == np.float32
-    eff_dtype = np.float32 if use_f32 else NUMPY_FLOAT_TYPE
+    if data.dtype == np.float64:
+        eff_dtype = np.float64  # do not merge values that only differ in float64
+    else:
+        eff_dtype = np.float32 if use_f32 else NUMPY_FLOAT_TYPE
 
     if all_simple and all_min:
         col_indices = np.array([c for c, _ in effective_cols], dtype=np.intp)
